@@ -22,6 +22,9 @@ def queries(tier):
     for f in (0, 1, 2, 5):   # BITMAP (4) and DICT (3) arms: see META "outside"
         for n in ((2,) if q else (1, 2, 3)):
             qs.append(aq("forced-%s-n%d" % (NAMES[f], n), {"N": n, "MODE": 0, "FORCE": f, "PROP": 6}))
+    # TAGGED arm with enough 9-byte values to exhaust any per-value byte budget of the decoder (9, 10 elements)
+    for n in ((9,) if q else (9, 10)):
+        qs.append(aq("forced-tagged-n%d-wide" % n, {"N": n, "MODE": 0, "FORCE": 5, "PROP": 6, "WIDE_LIT": 1}, to=1800, weight=8))
     # BITMAP arm: encoder against the explicit serialisation, decoder from that serialisation (transitivity gives the round trip)
     for n in ((3,) if q else (1, 2, 3, 4)):
         qs.append(bitmap_arm("bitmap-arm-encode-n%d" % n, {"N": n, "PART": 1}))
